@@ -13,6 +13,8 @@
 // proxy ops:  E,k0,k1[,w...]  evaluate an individual whose signature is
 //             (k0,k1); w... is what the wrapped evaluator returns at this
 //             moment if it is called          C  proxy.clear()
+//             A,k0,k1[,w...]  proxy.fast(individual); w... is what the wrapped
+//             evaluator's fast() returns now; output a=<fit>/<fast calls><exact calls>
 //             S  proxy.save(stream); a newly built proxy loads the stream
 //                (evaluator_proxy::save/load, the path of search::close/init)
 //   D <bits> <examples> <gap> <seed> <op>...   the proxy around an evaluator
@@ -120,7 +122,10 @@ struct counting_evaluator : public evaluator<ind>
 {
   fitness_t now;            // what an evaluation returns at this moment
   unsigned calls = 0;
+  fitness_t fnow;           // what the approximate evaluation fast() returns at this moment
+  unsigned fcalls = 0;
   fitness_t operator()(const ind &) override { ++calls; return now; }
+  fitness_t fast(const ind &) override { ++fcalls; return fnow; }
   // its own serialisation: one marker number, checked when read back
   bool save(std::ostream &out) const override { out << 4242 << '\n'; return out.good(); }
   bool load(std::istream &in) override { unsigned m; return (in >> m) && m == 4242; }
@@ -184,6 +189,15 @@ static void proxy_script(unsigned bits, const std::vector<std::string> &ops, std
       const unsigned before(proxy->eva_.calls);
       const fitness_t f((*proxy)(x));
       out << "e=" << show_fit(f) << '/' << (proxy->eva_.calls - before) << ' ';
+    }
+    else if (o == 'A')
+    {
+      // evaluator_proxy::fast: the approximate fitness (never stored in the cache)
+      ind x{hash_t(unhex(p[1]), unhex(p[2]))};
+      proxy->eva_.fnow = parse_fit(p, 3);
+      const unsigned before(proxy->eva_.fcalls), before_exact(proxy->eva_.calls);
+      const fitness_t f(proxy->fast(x));
+      out << "a=" << show_fit(f) << '/' << (proxy->eva_.fcalls - before) << (proxy->eva_.calls - before_exact) << ' ';
     }
     else if (o == 'C')
       proxy->clear();
